@@ -60,6 +60,9 @@ type HistCase struct {
 	// Zone != 0: the process's local time zone (time.Local) is this many minutes east of UTC; the logger's days are UTC
 	// days whatever the host says
 	Zone int `json:"zone,omitempty"`
+	// Stdout: the logger is created with the console echo on (WithStdout(true)): lines go to the file as always (the
+	// process's standard output is pointed at the null device while the case runs)
+	Stdout bool `json:"stdout,omitempty"`
 }
 
 // ---- model ------------------------------------------------------------------------------------------
@@ -407,7 +410,16 @@ func runHist(c HistCase) *pbt.Result {
 
 	nudge()
 	lo := clk.now()
-	l := logfile.NewNoRunForVerif(logfile.WithHomePath(home), logfile.WithOnameLogID(m.oname, m.id), logfile.WithLevel(c.Level))
+	lopts := []logfile.FileLoggerOption{logfile.WithHomePath(home), logfile.WithOnameLogID(m.oname, m.id), logfile.WithLevel(c.Level)}
+	if c.Stdout {
+		if null, err := os.OpenFile(os.DevNull, os.O_WRONLY, 0); err == nil {
+			oldOut := os.Stdout
+			os.Stdout = null
+			defer func() { os.Stdout = oldOut; null.Close() }()
+			lopts = append(lopts, logfile.WithStdout(true))
+		}
+	}
+	l := logfile.NewNoRunForVerif(lopts...)
 	defer l.CloseForVerif()
 	hi := clk.now()
 	if dayOf(lo) != dayOf(hi) {
@@ -671,12 +683,13 @@ func drawHist(t *rapid.T) HistCase {
 	if rapid.IntRange(0, 2).Draw(t, "zone?") == 0 {
 		c.Zone = rapid.SampledFrom([]int{-300, -720, 330, 540, 780}).Draw(t, "zone")
 	}
+	c.Stdout = rapid.IntRange(0, 3).Draw(t, "stdout?") == 0
 	return c
 }
 
 var specHist = pbt.Register(pbt.Spec[HistCase]{
 	Prop: "C17", Name: "logger-histories",
-	Rule:  "histories of 3-45 actions on a logger without background goroutine in a fresh temp home under a virtual clock: log over all 12 logging methods (ids/10-byte message prefixes from 5-element alphabets; one history in ten also logs 80-320 further ids and all of them again at once), in a third of the histories with the process's local zone set -12 h .. +13 h from UTC, advance (ms, days, to midnight +-, configured interval +-), cycle, ApplyConfig(level, interval, keep-days, rotation; keys may be absent), SetLevel, plant (own dated files of any age incl. keep-days boundary, own-prefix files whose date part is not a date, undated own files, foreign look-alikes, directories); oracle = file-system + rate-limiter model checked after every cycle and at the end; non-trivial = at least one date rotation and one retention pass (rotation on, keep-days >= 1) that removes at least one file and keeps at least one file besides the current log file; distinct by action list",
+	Rule:  "one history in four runs with the console echo on (WithStdout(true)); histories of 3-45 actions on a logger without background goroutine in a fresh temp home under a virtual clock: log over all 12 logging methods (ids/10-byte message prefixes from 5-element alphabets; one history in ten also logs 80-320 further ids and all of them again at once), in a third of the histories with the process's local zone set -12 h .. +13 h from UTC, advance (ms, days, to midnight +-, configured interval +-), cycle, ApplyConfig(level, interval, keep-days, rotation; keys may be absent), SetLevel, plant (own dated files of any age incl. keep-days boundary, own-prefix files whose date part is not a date, undated own files, foreign look-alikes, directories); oracle = file-system + rate-limiter model checked after every cycle and at the end; non-trivial = at least one date rotation and one retention pass (rotation on, keep-days >= 1) that removes at least one file and keeps at least one file besides the current log file; distinct by action list",
 	Quick: 3000, Thorough: 120000,
 	Draw: drawHist,
 	Run:  runHist,
